@@ -7,7 +7,7 @@ import json, os, sys
 HERE = os.path.dirname(os.path.dirname(os.path.abspath(__file__)))
 sys.path.insert(0, HERE)
 os.environ.setdefault("QV_NO_NAME_NORMALISATION", "1")
-from qv.core import Repo, local_names_in_order
+from qv.core import Repo, local_names_in_order, alpha_shape
 
 repo = Repo()
 out = {}
@@ -19,6 +19,9 @@ for q, fi in sorted(repo.functions.items()):
         out[q] = names
 with open(os.path.join(HERE, "qv", "names.json"), "w") as fh:
     json.dump(out, fh, indent=0, sort_keys=True)
+shapes = {q: alpha_shape(fi.node) for q, fi in sorted(repo.functions.items()) if fi.parent is None}
+with open(os.path.join(HERE, "qv", "shapes.json"), "w") as fh:
+    json.dump(shapes, fh, indent=0, sort_keys=True)
 with open(os.path.join(HERE, "qv", "functions.json"), "w") as fh:
     json.dump(sorted(repo.functions), fh, indent=0)
 print(len(out), "functions with locals;", len(repo.functions), "functions in the inventory")
